@@ -26,8 +26,8 @@ RULE = (
     "probe; distinct_nontrivial = distinct (formula, spelling, key, position) cases"
 )
 BOUNDS = {
-    "quick": "depth<=1 over 15 atoms fully crossed; depth 2 over 7 atoms in all positions (one key spelling each); depth-3 left/right chains over {T,F,R}",
-    "thorough": "depth<=1 over 15 atoms fully crossed; depth 2 over 7 atoms in all positions, both key spellings (guard / cond); depth-3 left/right chains over {T,F,R}",
+    "quick": "depth<=1 over 16 atoms fully crossed; depth 2 over 7 atoms in all positions (one key spelling each); depth-3 left/right chains over {T,F,R}",
+    "thorough": "depth<=1 over 16 atoms fully crossed; depth 2 over 7 atoms in all positions, both key spellings (guard / cond); depth-3 left/right chains over {T,F,R}",
 }
 ASSUMPTIONS = [
     "a missing atom that cannot influence the formula's value may or may not be reported (short-circuiting is allowed)",
@@ -35,7 +35,7 @@ ASSUMPTIONS = [
 ]
 ENGINES = ("sync", "async")
 
-ATOMS1 = ["T", "F", "R", "Rp", "M", "Pt", "Pf", "Pc", "Pz", "Pe", "Sa", "Sp", "Ss", "Si", "Sn"]
+ATOMS1 = ["T", "F", "R", "Rp", "M", "Pt", "Pf", "Pc", "Pz", "Pe", "Sa", "Sp", "Ss", "Si", "Sn", "Sx"]
 ATOMS2 = ["T", "F", "R", "Rp", "M", "Sa", "Si"]
 POSITIONS = ["sole", "first", "second", "parent", "second-p", "parent-p", "choose", "check"]
 
@@ -61,6 +61,8 @@ def atom_cfg(a: str) -> Any:
         "Si": {"type": "stateIn", "params": {"state": "#m.q"}},
         # near miss: the inactive state m.p.c, whose key is a proper textual prefix of the active m.p.c1's
         "Sn": {"type": "stateIn", "params": {"state": "#m.p.c"}},
+        # near miss at the other end: "1" is a textual SUFFIX of the active m.p.c1's id, not one of its segments
+        "Sx": {"type": "stateIn", "params": {"state": "1"}},
     }[a]
 
 
@@ -78,7 +80,7 @@ def _callable_params(args):
 
 def atom_val(a: str) -> Any:
     return {"T": True, "F": False, "R": False, "Rp": False, "M": "M", "Pt": True, "Pf": False, "Pc": True, "Pz": True, "Pe": False,
-            "Sa": True, "Sp": True, "Ss": True, "Si": False, "Sn": False}[a]
+            "Sa": True, "Sp": True, "Ss": True, "Si": False, "Sn": False, "Sx": False}[a]
 
 
 def to_cfg(f, spelling: int) -> Any:
